@@ -230,6 +230,7 @@ def tasks(tier, seed):
     T.append(('blocks',))
     T.append(('blocks_enum',))
     T.append(('logtofile',))
+    T.append(('reinit',))
     T.append(('bits',))
     T.append(('realcrash',))
     return T
@@ -242,6 +243,8 @@ def run_task(rep, task):
         blocks_enum_case(rep)
     elif task[0] == 'logtofile':
         logtofile_case(rep)
+    elif task[0] == 'reinit':
+        reinit_case(rep)
         return
     if task[0] == 'bits':
         return bits_case(rep)
@@ -968,6 +971,50 @@ def logtofile_case(rep):
         rep.side('logtofile/scenarios-run', False, f'{type(e).__name__}: {e}')
     finally:
         LogToFile.allow_overwriting, fio.FieldsIO.ALLOW_OVERWRITE = saved
+        import shutil
+
+        shutil.rmtree(d, ignore_errors=True)
+
+
+def reinit_case(rep):
+    """overwrite protection does not depend on the handle: initialize() on a handle that is already attached to an existing file (the writer itself, or a
+    handle obtained from fromFile) is refused while overwriting is disabled, and the file stays byte-identical (real files, ENUMERATED)"""
+    d = tempfile.mkdtemp(prefix='c16r_', dir='/dev/shm' if os.path.isdir('/dev/shm') else None)
+    saved = fio.FieldsIO.ALLOW_OVERWRITE
+    fio.FieldsIO.ALLOW_OVERWRITE = False
+    try:
+        for kind in ('scalar', 'rect'):
+            path = os.path.join(d, f'{kind}.pysdc')
+            if kind == 'scalar':
+                f = fio.Scalar(np.float64, path)
+                f.setHeader(nVar=3)
+                shape = (3,)
+            else:
+                f = fio.Rectilinear(np.float64, path)
+                f.setHeader(nVar=2, coords=[np.linspace(0, 1, 4)])
+                shape = (2, 4)
+            f.initialize()
+            for j in range(3):
+                f.addField(0.5 * j, np.full(shape, float(j + 1)))
+            before = open(path, 'rb').read()
+            handles = {'writer': f, 'generic-reader': fio.FieldsIO.fromFile(path), 'specialised-reader': type(f).fromFile(path)}
+            for lab, h in handles.items():
+                refused = False
+                try:
+                    h.initialize()
+                except (AssertionError, FileExistsError):
+                    refused = True
+                except Exception as e:
+                    refused = type(e).__name__
+                same = open(path, 'rb').read() == before
+                rep.side(f'reinit/{kind}/{lab}:refused-and-file-unchanged', refused is True and same, {'refused': refused, 'file_unchanged': same})
+                rep.translator += 1
+                if not same:
+                    break
+    except Exception as e:
+        rep.side('reinit/scenarios-run', False, f'{type(e).__name__}: {e}')
+    finally:
+        fio.FieldsIO.ALLOW_OVERWRITE = saved
         import shutil
 
         shutil.rmtree(d, ignore_errors=True)
